@@ -71,6 +71,7 @@ const (
 	defaultTimeoutS = 90
 	defaultProcs    = 16
 	smallBatch      = 1 << 13
+	perBatch        = 96 // (period, all tails, all sizes) instances per worker request
 )
 
 func bounds(n, depth int) (s, d, a uint64) {
@@ -315,6 +316,8 @@ type runState struct {
 	timeout  time.Duration
 	fams     []family
 	scopes   []smallScope
+	pers     []perScope
+	perAgg   map[string]*perAgg
 	ratios   map[string]*ratioAgg
 	small    map[string]*smallAgg
 	mism     int64
@@ -324,6 +327,16 @@ type runState struct {
 	memMB    int
 	bigMemMB int
 	bigSem   chan struct{}
+}
+
+type perAgg struct {
+	Measurements int64      `json:"measurements"`
+	Accepted     int64      `json:"accepted"`
+	Stopped      int64      `json:"instances_stopped_at_first_violation"`
+	MaxFrac      [3]float64 `json:"max_over_bound_deepSize_allocDec_allocDecEnc"`
+	PerN         [3]float64 `json:"max_per_n_deepSize_allocDec_allocDecEnc"`
+	WorstAt      string     `json:"worst_at,omitempty"`
+	worstFr      float64
 }
 
 type smallAgg struct {
@@ -349,7 +362,7 @@ func Run(c *fw.Ctx) {
 		"a worker killed by the address-space limit or the hard timeout counts as a violation of the instance it was measuring (the limit is above the largest value of any bound)",
 		"pretty-printing is not measured (outside the statement)",
 	)
-	st := &runState{c: c, fams: families(), scopes: smallScopes(), ratios: map[string]*ratioAgg{}, small: map[string]*smallAgg{},
+	st := &runState{c: c, fams: families(), scopes: smallScopes(), pers: perScopes(), perAgg: map[string]*perAgg{}, ratios: map[string]*ratioAgg{}, small: map[string]*smallAgg{},
 		timeout: time.Duration(envInt(envTimeS, defaultTimeoutS)) * time.Second,
 		memMB:   envInt(envMemMB, defaultMemMB), bigMemMB: envInt(envBigMemMB, defaultBigMemMB), bigSem: make(chan struct{}, bigConcurrent)}
 	nproc := envInt(envProcs, defaultProcs)
@@ -394,6 +407,25 @@ func Run(c *fw.Ctx) {
 	// so that the structure families (largest inputs) start early
 	for i, j := 0, len(items)-1; i < j; i, j = i+1, j-1 {
 		items[i], items[j] = items[j], items[i]
+	}
+	// periodic extension of the small scope
+	psizes := perSizes(c.Thorough())
+	for si := range st.pers {
+		ps := &st.pers[si]
+		st.perAgg[ps.Name] = &perAgg{}
+		var off int64
+		for l := 1; l <= ps.MaxPeriod; l++ {
+			tot := ipow(len(ps.Alpha), l)
+			for lo := int64(0); lo < tot; lo += perBatch {
+				hi := lo + perBatch
+				if hi > tot {
+					hi = tot
+				}
+				si, l, lo, hi, off := si, l, lo, hi, off
+				items = append(items, func(pp **proc) { st.runPer(pp, si, l, lo, hi, off, psizes) })
+			}
+			off += tot
+		}
 	}
 	var smallOrder int64
 	for si := range st.scopes {
@@ -629,8 +661,107 @@ func (st *runState) runSmall(pp **proc, si, l int, lo, hi, base int64) {
 	}
 }
 
+const perOrderBase = int64(1) << 41
+
+func (st *runState) runPer(pp **proc, si, l int, lo, hi, off int64, sizes []int) {
+	if st.c.Over() || st.failed() {
+		return
+	}
+	p := st.ensure(pp)
+	if p == nil {
+		return
+	}
+	s := &st.pers[si]
+	order := func(i int64, tail, size int) int64 {
+		return perOrderBase + int64(si)<<32 + (off+i)*64 + int64(tail)*8 + int64(size%8)
+	}
+	r, died := p.call(request{Kind: "per", Scope: si, Len: l, Lo: lo, Hi: hi, Sizes: sizes}, st.timeout)
+	if died != "" {
+		*pp = nil
+		st.c.Eval((hi - lo) * int64(len(perTails)))
+		st.c.Report(fw.Violation{Fingerprint: s.entryName() + "|budget-exceeded|periodic:" + s.Name, Order: order(lo, 0, 0), Scope: "periodic " + s.Name,
+			Input:    fmt.Sprintf("batch: period strings of length %d with indices [%d,%d) over alphabet %s (first: %s), every tail, sizes %v", l, lo, hi, fw.Hex(s.Alpha), fw.Hex(s.perString(l, lo)), sizes),
+			Observed: died, Expected: fmt.Sprintf("every instance finishes inside the worker budget (%d MiB address space, %v), which is far above every bound of these flat inputs", st.memMB, st.timeout),
+			Explain: "a periodic input of this batch did not complete inside the resource budget"})
+		st.mu.Lock()
+		st.budgetEx++
+		st.mu.Unlock()
+		return
+	}
+	if r.Fatal != "" {
+		st.setFatal(r.Fatal)
+		return
+	}
+	st.c.Eval(r.Count)
+	st.c.Nontrivial(r.Nontrivial)
+	st.mu.Lock()
+	a := st.perAgg[s.Name]
+	a.Measurements += r.Count
+	a.Accepted += r.Accepted
+	a.Stopped += r.Stopped
+	for k := range a.MaxFrac {
+		if r.MaxFrac[k] > a.MaxFrac[k] {
+			a.MaxFrac[k] = r.MaxFrac[k]
+		}
+		if r.PerN[k] > a.PerN[k] {
+			a.PerN[k] = r.PerN[k]
+		}
+	}
+	if r.Worst != nil {
+		fr := fractions(r.Worst)
+		w := fr[0]
+		if fr[1] > w {
+			w = fr[1]
+		}
+		if fr[2] > w {
+			w = fr[2]
+		}
+		if w > a.worstFr {
+			a.worstFr = w
+			a.WorstAt = fmt.Sprintf("period %s tail %q n=%d: deepSize=%d allocDec=%d allocDecEnc=%d depth=%d accepted=%v", fw.Hex(s.perString(l, r.WorstAt[0])), fw.Hex(perTails[r.WorstAt[1]]), r.Worst.N, r.Worst.Deep, r.Worst.AllocDec, r.Worst.AllocDecEnc, r.Worst.Depth, r.Worst.Accepted)
+		}
+	}
+	st.mism += r.DepthMism
+	st.mu.Unlock()
+	for _, v := range r.Viol {
+		ps := s.perString(l, v.Index)
+		in := s.perInput(ps, perTails[v.Tail], v.Size)
+		where := fmt.Sprintf("periodic %s (period %s, tail %q, n=%d)", s.Name, fw.Hex(ps), fw.Hex(perTails[v.Tail]), v.Size)
+		zi := 0
+		for k, z := range sizes {
+			if z == v.Size {
+				zi = k
+			}
+		}
+		if v.Clause == "panic" {
+			st.c.Report(fw.Violation{Fingerprint: s.entryName() + "|panic|" + v.M.Stack, Order: order(v.Index, v.Tail, zi), Scope: where, Input: fw.Hex(in),
+				Observed: "panic: " + v.M.Panic + " at " + v.M.Stack, Expected: "value or error", GoTest: goTest(s.Entry, in, v.M.Depth, "")})
+			continue
+		}
+		obs, exp := clauseText(v.Clause, &v.M)
+		st.c.Report(fw.Violation{Fingerprint: s.entryName() + "|" + v.Clause + "|periodic:" + s.Name, Order: order(v.Index, v.Tail, zi), Scope: where,
+			Input: fw.Hex(in), Observed: obs, Expected: exp,
+			Explain: fmt.Sprintf("a short pattern repeated to fill the input exceeds the fixed bound (%d violating measurements in this batch of %d period strings; an instance stops at its first violating size)", r.ViolN, hi-lo),
+			GoTest:  goTest(s.Entry, in, v.M.Depth, v.Clause)})
+	}
+}
+
 func (st *runState) finish(sizes []int, nproc int) {
 	c := st.c
+	for si := range st.pers {
+		s := &st.pers[si]
+		a := st.perAgg[s.Name]
+		var tails []string
+		for _, t := range perTails {
+			tails = append(tails, fw.Hex(t))
+		}
+		c.Scope("c:periodic:"+s.Name, "entry", s.entryName(), "what", "every string over the alphabet of length 1..max_period, repeated (last copy cut) to fill the payload room of an n-octet input, followed by each tail; each (period, tail) instance at ascending sizes, stopped at its first violation",
+			"alphabet", fw.Hex(s.Alpha), "alphabet_meaning", s.What, "max_period", s.MaxPeriod, "period_strings", perPeriods(len(s.Alpha), s.MaxPeriod),
+			"tails", tails, "instances", perPeriods(len(s.Alpha), s.MaxPeriod)*int64(len(perTails)), "sizes", perSizes(c.Thorough()),
+			"measurements", a.Measurements, "accepted", a.Accepted, "instances_stopped_at_first_violation", a.Stopped,
+			"max_over_bound_deepSize_allocDec_allocDecEnc", a.MaxFrac, "max_per_n_deepSize_allocDec_allocDecEnc", a.PerN, "worst_at", a.WorstAt)
+	}
+	c.Extra("periodic_maxima", st.perAgg)
 	// scopes
 	for si := range st.scopes {
 		s := &st.scopes[si]
